@@ -1747,6 +1747,9 @@ tunnel_bind(int bind_fd, struct dnsfd *dns_fds)
 		warn("forward reply error");
 	}
 
+	/* this query has had its reply */
+	query->addrlen = 0;
+
 	return 0;
 }
 
